@@ -312,7 +312,7 @@ impl<'t> W<'t> {
                     let r = self.recs[self.t.choose(self.recs.len())].clone();
                     return format!("{}.N", r);
                 }
-                self.nums[1].clone()
+                self.nums[self.nums.len() - 1].clone()
             }
             _ => {
                 let v = self.nums.clone();
@@ -334,7 +334,7 @@ impl<'t> W<'t> {
                     let r = self.recs[self.t.choose(self.recs.len())].clone();
                     return format!("{}.T", r);
                 }
-                self.strs[1].clone()
+                self.strs[self.strs.len() - 1].clone()
             }
             _ => {
                 let v = self.strs.clone();
@@ -381,12 +381,12 @@ impl<'t> W<'t> {
             }
             10 => {
                 self.used("INPUT");
-                let t = if self.t.chance(1, 2) { self.nums[self.t.choose(5)].clone() } else { self.strs[self.t.choose(2)].clone() };
+                let t = if self.t.chance(1, 2) { let v = self.nums.clone(); v[self.t.choose(v.len())].clone() } else { let v = self.strs.clone(); v[self.t.choose(v.len())].clone() };
                 self.emit(format!("INPUT {}", t));
             }
             11 => {
                 self.used("LINE INPUT");
-                let t = self.strs[self.t.choose(2)].clone();
+                let t = { let v = self.strs.clone(); v[self.t.choose(v.len())].clone() };
                 self.emit(format!("LINE INPUT {}", t));
             }
             12 => {
@@ -492,12 +492,12 @@ impl<'t> W<'t> {
             }
             5 => {
                 self.used("INPUT #");
-                let t = if self.t.chance(1, 2) { self.nums[self.t.choose(5)].clone() } else { self.strs[self.t.choose(2)].clone() };
+                let t = if self.t.chance(1, 2) { let v = self.nums.clone(); v[self.t.choose(v.len())].clone() } else { let v = self.strs.clone(); v[self.t.choose(v.len())].clone() };
                 self.emit(format!("INPUT #{}, {}", h, t));
             }
             6 => {
                 self.used("LINE INPUT #");
-                let t = self.strs[self.t.choose(2)].clone();
+                let t = { let v = self.strs.clone(); v[self.t.choose(v.len())].clone() };
                 self.emit(format!("LINE INPUT #{}, {}", h, t));
             }
             7 | 8 => {
